@@ -130,8 +130,10 @@ def main():
     for _ in range(max(3, per // 2)):
         pool = [ident(rng, 2, 4) for _ in range(4)]
         dup = rng.random() < 0.35
-        k = rng.randint(1, 4)
+        k = rng.randint(1, 4) if not dup else rng.randint(2, 4)
         names = [rng.choice(pool) for _ in range(k)] if dup else rng.sample(pool, k) if len(set(pool)) == 4 else pool[:1]
+        if dup and len(names) >= 2:
+            names[rng.randrange(1, len(names))] = names[0]
         procs = [rename(bm.base, nm) for nm in names]
         try:
             c, _h = compile_procs_to_strings(procs, "c.h")
@@ -199,7 +201,7 @@ def main():
             pass
 
     for _ in range(per):
-        evs = events(rng.randint(1, 12), rng.random() < 0.2)
+        evs = events(rng.randint(1, 12), rng.random() < 0.4)
         stub = types.SimpleNamespace(names=ChainMap(), env=ChainMap(), envtyp={}, mems={}, range_env=NoRange(), _tab="")
         outs, used = [], []
         for kind, s in evs:
